@@ -12,7 +12,7 @@ LEAVES = {
     BOOL: [sym("p", BOOL), sym("q", BOOL), const(BOOL, True), const(BOOL, False)],
     INT: [sym("i", INT), sym("j", INT), const(INT, 0), const(INT, 1), const(INT, -1), const(INT, 2)],
     REAL: [sym("r", REAL), sym("s", REAL), const(REAL, Fraction(0)), const(REAL, Fraction(1)), const(REAL, Fraction(1, 2)),
-           const(REAL, Fraction(-1))],
+           const(REAL, Fraction(-1)), const(REAL, Fraction(-1, 2))],
     BV2: [sym("a", BV2), sym("b", BV2), const(BV2, 0), const(BV2, 1), const(BV2, 3)],
     BV1: [sym("c", BV1), const(BV1, 0), const(BV1, 1)],
 }
